@@ -150,3 +150,23 @@ def chain2(level, nvariants=1):
                                                 bname, op1 // 1000, src1, ''.join(map(str, pat1)), sname,
                                                 op2 // 1000, src2, ''.join(map(str, pat2)))
                                             yield name, bdescs + d1 + sdescs + d2, qs, free
+
+
+def wrapped(structs, reps=2, cancel=True, delayed=False):
+    """the whole structure (base + constructs) placed inside an outer replication that runs `reps` times within one
+    subset: bitmap definition, back references and attribute linking happen once per repetition.  With cancel=True
+    every repetition ends with 235000, so each bitmap refers to the elements of its own repetition (unambiguous);
+    without it the back reference of the first repetition stays defined (FM-94) -- used only where the oracle is
+    differential.  Structural queues and free counts are repeated per repetition."""
+    for name, descs, queues, free in structs:
+        body = list(descs) + ([235000] if cancel else [])
+        x = len(body)
+        if x > 63:
+            continue
+        head = [100000 + x * 1000, Z8] if delayed else [100000 + x * 1000 + reps]
+        if free and isinstance(free[0], (list, tuple)):
+            f2 = [([reps] if delayed else []) + list(f) * reps for f in free]
+        else:
+            f2 = ([reps] if delayed else []) + list(free) * reps
+        yield ('%s|x%d%s%s' % (name, reps, 'c' if cancel else '', 'd' if delayed else ''), head + body,
+               [list(q) * reps for q in queues], f2)
